@@ -113,10 +113,10 @@ def select(groups, seeds, atomic, split, quick: bool, rng: random.Random) -> lis
                 rot = [g[(r + k) % 3] for k in range(4)]
                 add("atomic", sd, [["t", s] for s in rot])
         pool = [b for sd in seeds for b in by_a.get((sub, sd), []) if len(b["h"]) >= 2]
-        for b in rng.sample(pool, min(len(pool), 8 if quick else 200)):
+        for b in rng.sample(pool, min(len(pool), 8 if quick else 100)):
             add("atomic", b["seed"], [["t", s] for _k, s in b["h"]])
         pool = [b for b in by_s.get(sub, []) if any(b["h"][i][0] == "parse" and b["h"][i + 1][0] == "parse" for i in range(len(b["h"]) - 1))]
-        for b in rng.sample(pool, min(len(pool), 3 if quick else 40)):
+        for b in rng.sample(pool, min(len(pool), 3 if quick else 20)):
             add("split", b["seed"], [["p" if k == "parse" else "e", s] for k, s in b["h"]])
         if not quick:
             for k in range(6):
@@ -203,7 +203,7 @@ def check(run) -> None:
     run.assumptions += ["one machine, one CPython build: 'platforms' set/dict ordering' is exercised through PYTHONHASHSEED only",
                         "the reference process's history is projected onto the scripts of each group in that group's trace",
                         "module-level state = scalars and containers bound in Reduino.transpile.{parser,emitter,ast}, class attributes, "
-                        "mutable defaults, lru_cache fill (harness/modstate.py)",
+                        "mutable defaults, lru_cache fill (harness/modstate.py); bindings named _verif* (the log of the REDUINO_VERIF hook) are left out",
                         "trigger of the known finding is computed from the script's syntax with CPython's ast (harness/session_rec.promotion_groups)"]
     model_check(run, 2 if quick else 3)
     cs = S.corpus(run.seed)
